@@ -43,9 +43,9 @@ def run(tier):
     common.ext_type_sweep(rep, binary, PROP)
     rep.sample({"site": sites[0]["site"], "fn": sites[0]["fn"], "template": [sites[0]["pre"], sites[0]["w"], sites[0]["suf"]], "field": sites[0]["path"]})
     return rep.finish("model_checking",
-                      "sites = 42 (enclosing template, enumerated field) pairs; every site is swept over its whole domain (256 or 65536 "
+                      "sites = %d (enclosing template, enumerated field) pairs; every site is swept over its whole domain (256 or 65536 "
                       "values) on the compiled crate; TLC checks the same statement on the specification for all u8 values and a "
-                      "boundary-rich stride of u16 values; distinct = sites and their accepted counts", exhaustive=True)
+                      "boundary-rich stride of u16 values; distinct = sites and their accepted counts" % len(sites), exhaustive=True)
 
 
 def replay(path):
